@@ -105,6 +105,14 @@ func Names(quick bool) Family {
 			defs = append(defs, m.Def{"Root": {r(n1, `a+`), push(n2, `\(`, "S")}, "S": {pop(n1+"x", `\)`), r(n2+"y", `[ab]`)}})
 		}
 	}
+	// names that collide with something built in: a rule called EOF (the symbol table starts out with EOF),
+	// a state whose name is the empty string
+	defs = append(defs,
+		m.Def{"Root": {r("EOF", `a`), r("B", `b|é`), r("Open", `\(`)}},
+		m.Def{"Root": {r("A", `a`), r("EOF", `b+`), push("Open", `\(`, "S")}, "S": {r("EOF", `a`), pop("Close", `\)`)}},
+		m.Def{"Root": {r("A", `a`), push("Open", `\(`, "")}, "": {r("B", `b`), pop("Close", `\)`)}},
+		m.Def{"Root": {r("A", `a`), inc(""), push("Open", `\(`, "")}, "": {r("B", `b`), pop("Close", `\)`)}},
+	)
 	return Family{Name: "names", Defs: defs, Alphabet: []string{"a", "b", "(", ")", "é"}, MaxLen: lenFor(quick, 4, 5)}
 }
 
@@ -210,6 +218,22 @@ func Backrefs(quick bool) Family {
 					"T":    inner,
 				})
 			}
+		}
+	}
+	// the back-reference rule reaches the pushed state only through an Include
+	for _, e := range []string{`(a)`, `(a|b)`, `(\.)x?`} {
+		for _, b := range []string{`\1`, `\1\1`, `!\1`} {
+			defs = append(defs, m.Def{
+				"Root": {push("Enter", e, "S"), r("Any", `(?s:.)`)},
+				"S":    {inc("Refs"), pop("End", `!`), r("Other", `(?s:.)`)},
+				"Refs": {r("Ref", b)},
+			})
+			defs = append(defs, m.Def{
+				"Root": {push("Enter", e, "S"), r("Any", `(?s:.)`)},
+				"S":    {pop("End", `!`), inc("Mid"), r("Other", `(?s:.)`)},
+				"Mid":  {inc("Refs")},
+				"Refs": {r("Ref", b), r("X", `x`)},
+			})
 		}
 	}
 	return Family{Name: "backref", Defs: defs, Alphabet: []string{"a", "b", ".", "(", "!", "\\", "1", "x"}, MaxLen: lenFor(quick, 4, 5)}
